@@ -13,6 +13,7 @@ JPH = os.path.join(HARNESS, "bin", "jph")
 SPEC_EXE = os.path.join(LEAN, ".lake", "build", "bin", "jpv-spec")
 IMPL_EXE = os.path.join(LEAN, ".lake", "build", "bin", "jpv-impl")
 PEG_EXE = os.path.join(LEAN, ".lake", "build", "bin", "jpv-peg")
+PEGGO_EXE = os.path.join(LEAN, ".lake", "build", "bin", "jpv-peggo")
 
 GOENV = dict(os.environ, GOFLAGS="-mod=mod", GOPROXY="off", GOSUMDB="off", GOTOOLCHAIN="local",
              CGO_ENABLED=os.environ.get("CGO_ENABLED", "0"))
@@ -133,7 +134,7 @@ GEN_OUTPUT = {
     "validators": "Validators.lean", "comparators": "Comparators.lean", "operand_order": "OperandOrder.lean",
     "facts": "Facts.lean", "accessor": "AccessorGo.lean", "functions": "FunctionsGo.lean", "errors": "ErrorsGo.lean",
     "queries": "QueriesGo.lean", "nodes": "NodesGo.lean", "parsewrap": "ParseWrapGo.lean",
-    "parser_helpers": "ParserHelpersGo.lean",
+    "parser_helpers": "ParserHelpersGo.lean", "actions": "ActionsGo.lean", "pegrules": "PegGoRules.lean",
 }
 
 
@@ -263,9 +264,11 @@ def prove(prop, cfg, log, thorough=False, gen_failed=None):
 def build_tools(log):
     """step 3: drivers and harness from the working tree; returns (set of drivers that do not build, harness ok, texts)"""
     bad, dtxt = set(), ""
-    for name in ("spec", "impl", "peg"):
+    for name in ("spec", "impl", "peg", "peggo"):
         rc, out, _ = run(["lake", "build", "jpv-" + name], cwd=LEAN, timeout=3000)
         if rc != 0:
+            if name == "peggo" and os.path.exists(PEGGO_EXE):
+                os.remove(PEGGO_EXE)  # a stale binary must not answer for a source that no longer translates
             bad.add(name)
             dtxt += "jpv-%s: %s\n" % (name, out[-800:])
             log.append(out)
@@ -305,7 +308,7 @@ def run_jph(prop, tier, seed, cfg, n=None, extra_args=None):
     out = os.path.join(EVID, "%s.t3.json" % prop)
     if os.path.exists(out):
         os.remove(out)
-    cmd = [JPH, "run", "-prop", prop, "-seed", str(seed), "-tier", tier, "-spec", SPEC_EXE, "-impl", IMPL_EXE, "-peg", PEG_EXE,
+    cmd = [JPH, "run", "-prop", prop, "-seed", str(seed), "-tier", tier, "-spec", SPEC_EXE, "-impl", IMPL_EXE, "-peg", PEG_EXE, "-peggo", PEGGO_EXE,
            "-replays", REPLAYS, "-out", out, "-workers", str(cfg.get("workers", 12))]
     if n:
         cmd += ["-n", str(n)]
@@ -506,7 +509,7 @@ def do_replay(prop, cfg, path):
         return 2
     seed, idx, tier = body.get("seed", 1), body.get("case_index", 0), body.get("tier", "quick")
     out = os.path.join(EVID, "%s.replay.tmp" % prop)
-    cmd = [JPH, "run", "-prop", prop, "-seed", str(seed), "-tier", tier, "-spec", SPEC_EXE, "-impl", IMPL_EXE, "-peg", PEG_EXE,
+    cmd = [JPH, "run", "-prop", prop, "-seed", str(seed), "-tier", tier, "-spec", SPEC_EXE, "-impl", IMPL_EXE, "-peg", PEG_EXE, "-peggo", PEGGO_EXE,
            "-replays", REPLAYS, "-out", out, "-from", str(idx), "-n", str(idx + 1), "-workers", "1"]
     rc, txt, _ = run(cmd, cwd=VERIF, env=GOENV, timeout=600)
     if rc != 0:
